@@ -33,7 +33,7 @@ func (m *ERC20Token) ValidateBasic() error {
 	if err := contract.ValidateEthereumAddress(m.Contract); err != nil {
 		return ErrInvalid.Wrap("contract address")
 	}
-	if !m.Amount.IsPositive() {
+	if m.Amount.IsNil() || !m.Amount.IsPositive() {
 		return ErrInvalid.Wrapf("amount")
 	}
 	return nil
